@@ -11,7 +11,7 @@ import json
 import random
 import zlib
 
-from .common import Ctx, MachineryError
+from .common import Ctx, MachineryError, scribble
 from . import joseops as J
 from . import refimpl as R
 from . import keys as K
@@ -120,7 +120,7 @@ def _one_impl(sc, idx: int, seed: int, with_ref: bool):
         if name in ("recipient0", "keyset"):
             # what was returned belongs to the caller: editing it must not change a later decryption of the same token
             snap = json.dumps(o.protected, sort_keys=True)
-            o.protected["injected"] = 1; o.protected.pop("enc", None)
+            o.protected["injected"] = 1; o.protected.pop("enc", None); scribble(o.protected)
             try:
                 o2 = jwe.decrypt_compact(tok, key, registry=rg, **kw) if ser == "compact" else jwe.decrypt_json(tok, key, registry=rg, **kw)
                 if json.dumps(o2.protected, sort_keys=True) != snap or o2.plaintext != pt:
